@@ -867,7 +867,8 @@ class SqlalchemyRender:
 def quote_literal(value, dialect):
     # standard SQL: only the quote is special; MySQL additionally treats backslash as an escape character
     value = str(value).replace("'", "''")
-    if getattr(dialect, 'name', None) == 'mysql':
+    if isinstance(dialect, mysql.base.MySQLDialect):
+        # MySQL and MariaDB (whose dialects are named 'mariadb')
         value = value.replace('\\', '\\\\')
     return "'{}'".format(value)
 
